@@ -43,11 +43,15 @@ def run(ctx):
         def has_render(node):
             return any(n.get("k") in ("Call", "MethodCall") and is_call_to(n, "PrometheusHandle::render") for n in deep(node))
 
+        # the allowlist verdict is the handler's first parameter (a bool), whatever it is called
+        hp = hh.j.get("hir_params") or []
+        flag_name = hp[0].get("name") if hp and hp[0].get("k") == "Bind" else "is_allowed"
+
         def is_flag(c, negated=False):
             c = peel(c)
             if negated:
                 return c.get("k") == "Unary" and c.get("op") == "Not" and is_flag(c.get("a"))
-            return c.get("k") == "Path" and c.get("res") == "local" and c.get("name") == "is_allowed"
+            return c.get("k") == "Path" and c.get("res") == "local" and c.get("name") == flag_name
 
         def refusal_ok(node):
             ns = deep(node)
